@@ -176,8 +176,28 @@ func nhCode(rr RequestResult) string {
 	return "unknown"
 }
 
+// held runs f while the NodeHost of host hid cannot be closed by the fault goroutine (NodeHost.Close
+// concurrent with another API call is outside the API's contract: propose() reads nh.engine after
+// its closed check). Only the call is covered, never the wait for a result. false: host is down.
+func (r *nhRun) held(nh *NodeHost, f func()) bool {
+	for i, h := range r.c.hosts {
+		r.hmu[i].RLock()
+		if h.alive && h.nh == nh {
+			f()
+			r.hmu[i].RUnlock()
+			return true
+		}
+		r.hmu[i].RUnlock()
+	}
+	return false
+}
+
 func (r *nhRun) propose(nh *NodeHost, s *client.Session, cmd []byte) (string, string) {
-	rs, err := nh.Propose(s, cmd, r.p.opTimeout)
+	var rs *RequestState
+	var err error
+	if !r.held(nh, func() { rs, err = nh.Propose(s, cmd, r.p.opTimeout) }) {
+		return "refused", ""
+	}
 	if err != nil {
 		return "refused", ""
 	}
@@ -237,7 +257,9 @@ func (r *nhRun) client(cid int, seed int64, wg *sync.WaitGroup) {
 			// possibly through another host; it is the same operation
 			if sess == nil {
 				ctx, cancel := context.WithTimeout(context.Background(), r.p.opTimeout)
-				s, err := nh.SyncGetSession(ctx, c.shard)
+				var s *client.Session
+				err := ErrClosed
+				r.held(nh, func() { s, err = nh.SyncGetSession(ctx, c.shard) })
 				cancel()
 				if err != nil {
 					continue
@@ -303,7 +325,9 @@ func (r *nhRun) client(cid int, seed int64, wg *sync.WaitGroup) {
 			id := atomic.AddInt64(&r.opid, 1)
 			c.rec.emit("Inv", nhEv{"c": cid, "id": id, "op": "r", "k": k, "v": "", "h": hid, "sess": false})
 			ctx, cancel := context.WithTimeout(context.Background(), r.p.opTimeout)
-			a, err := nh.SyncRead(ctx, c.shard, nhQuery{Op: "r", K: k})
+			var a interface{}
+			err := ErrClosed
+			r.held(nh, func() { a, err = nh.SyncRead(ctx, c.shard, nhQuery{Op: "r", K: k}) })
 			cancel()
 			val := ""
 			out := "unknown"
@@ -315,7 +339,9 @@ func (r *nhRun) client(cid int, seed int64, wg *sync.WaitGroup) {
 		default:
 			id := atomic.AddInt64(&r.opid, 1)
 			c.rec.emit("Inv", nhEv{"c": cid, "id": id, "op": "r", "k": k, "v": "", "h": hid, "sess": false})
-			rs, err := nh.ReadIndex(c.shard, r.p.opTimeout)
+			var rs *RequestState
+			err := ErrClosed
+			r.held(nh, func() { rs, err = nh.ReadIndex(c.shard, r.p.opTimeout) })
 			if err != nil {
 				r.res(cid, id, hid, inc, "unknown", "")
 				continue
@@ -328,7 +354,9 @@ func (r *nhRun) client(cid int, seed int64, wg *sync.WaitGroup) {
 					if rng.Intn(3) == 0 {
 						time.Sleep(time.Duration(rng.Intn(3000)) * time.Microsecond)
 					}
-					a, err := nh.ReadLocalNode(rs, nhQuery{Op: "r", K: k})
+					var a interface{}
+					err := ErrClosed
+					r.held(nh, func() { a, err = nh.ReadLocalNode(rs, nhQuery{Op: "r", K: k}) })
 					if err == nil {
 						val = a.(nhAnswer).V
 						out = "ok"
